@@ -23,7 +23,7 @@ CLAIMED = {
         category="exploration",
         technique="Hypothesis-generated typed programs (progen), differential oracle native vs NanoVM on stdout bytes + exit status, shrinking to a minimal .nano replay; feature gates tied to the findings ledger",
         text="Well-typed, terminating, defined-by-construction programs over the documented core language (ints incl. 64-bit boundaries and wrapping, bools, strings incl. escapes/UTF-8/long literals, floats compared, arrays, structs, enums, unions+match, tuples, globals, recursion, first-class functions, while/for/break/continue, shadowing) are compiled by nanoc (+cc) and by nano_virt --run; stdout bytes and exit status must be equal. A reference evaluator only discards undefined/over-budget programs. Exploration: the program space is sampled; open ledger findings gate their trigger shapes (counted in evidence).",
-        note="Multi-file imports and map/filter/reduce are not generated yet; native programs link a prebuilt archive of the runtime compiled with nanoc's own flags (tools/nanocc shim).",
+        note="About a third of the cases are rendered as two files (type definitions and up to three functions in a module the main file imports; functions with enum/union-typed signatures or used as values stay in the main file, see DESIGN.md C.5). map/filter/reduce, HashMap and contracts are not generated; native programs link a prebuilt archive of the runtime compiled with nanoc's own flags (tools/nanocc shim).",
         design="3/C01"),
     "C02": dict(
         category="exploration",
@@ -41,7 +41,7 @@ CLAIMED = {
         category="exploration",
         technique="metamorphic oracle: the same expression tree printed in prefix and in infix spelling must compile to byte-identical code/function/string sections (nano_virt --emit-nvm) and run identically; exhaustive typed operator chains of length 1-3 plus Hypothesis-generated trees",
         text="Every typed left chain `a o1 b o2 c [o3 d]`, its right-nested variant and its unary-led variant over the 13 binary and 2 unary operators (exhaustive for those shapes over a fixed operand set), plus random trees with field chains, tuple indices, calls, negative literals and bare `not v` / `-v`, placed as let initialiser, if condition, call argument and println operand. The two spellings' .nvm files are compared section by section and --run outputs are compared; a rejection of only one spelling is a violation.",
-        note="Operands in the exhaustive part are fixed variables/literals; the nesting ramp to the parser's depth limit is not built yet. `(-a + b)` directly after an opening parenthesis is the prefix application of `-` in this language and is never generated as an infix form.",
+        note="Operands in the exhaustive part are fixed variables/literals; a statement-count ramp (the same expressions as 300 / 1100 / 2500 statements, with a forced bare unary in half of them) checks that the per-expression nesting budget does not leak across statements. `(-a + b)` directly after an opening parenthesis is the prefix application of `-` in this language and is never generated as an infix form.",
         design="3/C07"),
     "C10": dict(
         category="exploration",
@@ -70,14 +70,14 @@ CLAIMED = {
     "C05": dict(
         category="exploration",
         technique="catalogue of rule-violating snippets (ill-formed by construction) inserted at generated positions into Hypothesis-generated well-typed programs; oracle over four tool invocations: non-zero exit, diagnostic, no artifact, sentinel never printed",
-        text="44 snippet variants over 14 rule classes (operand/argument type, arity of user functions and builtins, unknown and out-of-scope names, use before declaration, assignment to immutable variable/parameter, missing return, return type, non-bool condition, let/set type, unknown field/variant, consumed resource, extern outside unsafe) x 6 placements (top/end of main, nested block, loop body, other function, shadow body), exhaustively on a minimal base program and sampled on generated base programs; nanoc -o, nano_virt --run, --emit-nvm, -o are all required to refuse without leaving an artifact or executing the sentinel-printing main/shadow blocks.",
+        text="Operator typing matrix from specification 4.4-4.6 (14 binary operators x 16 ordered operand-type pairs x prefix/infix x variable/literal operands: 1 328 ill-typed entries, enumerated completely at two placements each and sampled with random base programs) plus 49 hand-written snippet variants over 14 rule classes (operand/argument type, arity of user functions and builtins, unknown and out-of-scope names, use before declaration, assignment to immutable variable/parameter, missing return, return type, non-bool condition, let/set type, unknown field/variant, consumed resource, extern outside unsafe) x 6 placements (top/end of main, nested block, loop body, other function, shadow body), exhaustively on a minimal base program and sampled on generated base programs; nanoc -o, nano_virt --run, --emit-nvm, -o are all required to refuse without leaving an artifact or executing the sentinel-printing main/shadow blocks.",
         note="Variants/placements that are recorded findings are excluded by construction and counted (ledger c05_variants / c05_placements). nanoc does not echo shadow-block output without --verbose, so 'executed nothing' is observable for nanoc only through the artifact and exit status.",
         design="3/C05"),
     "C06": dict(
         category="exploration",
         technique="Hypothesis-generated template programs whose shadow assertions have truth values constructed by the generator (reference truth table), oracle on nanoc's exit status, 'Shadow test ... FAILED' lines, existence of the executable and missing-shadow reports",
         text="1-12 functions, 1-5 assertions each with generator-computed truth (calls of linear helpers, literals, and/not forms), each placed plainly or inside if-true / if-false / else / while (0,1,3 iterations) / for (0,2 iterations) / a callee invoked by the shadow block; functions without shadow blocks mixed in. A false assertion counts only when executed. The biconditional is checked in both directions, every failing test must be named, every shadow-less function reported, and the all-true executable must run.",
-        note="Fresh output path per case. Shadow blocks of imported modules are not exercised (nanoc does not run them; DESIGN.md 3/C06).",
+        note="Fresh output path per case. Also generated: assertions after a for/while loop left by break/continue (plain, nested, inside an outer loop) and functions that call an extern function directly (nanoc skips their shadow block: their assertions count as not executed; switched off automatically if the front end ever rejects such a call). Shadow blocks of imported modules are not exercised (nanoc does not run them; DESIGN.md 3/C06).",
         design="3/C06"),
     "C03": dict(
         category="exploration",
@@ -89,13 +89,13 @@ CLAIMED = {
         category="exploration",
         technique="metamorphic oracle: the same generated sources compiled under Hypothesis-drawn pairs/triples of configurations must give byte-identical .nvm and generated C and equal diagnostics",
         text="Configurations vary the working directory, relative vs absolute invocation path, TMPDIR, 0-50 extra environment variables, MALLOC_PERTURB_, ASLR (setarch -R), LANG, process ids (padding processes) and the compiler build itself (plain vs ASan: different allocator and layout). Compared: nano_virt --emit-nvm bytes, nanoc -S generated C bytes, exit statuses, and both tools' own diagnostics with the source path normalised. Programs come from progen plus a two-file import example.",
-        note="No MSan toolchain: uninitialised-memory dependence is attacked only through MALLOC_PERTURB_/ASLR/allocator change. While the module-path finding is open, multi-module cases keep cwd and path form fixed (counted).",
+        note="No MSan toolchain: uninitialised-memory dependence is attacked only through MALLOC_PERTURB_/ASLR/allocator change. Programs with imports (fixed two-file programs incl. a module with extern functions and a transitive import, and split renderings of generated programs) vary the directory and path form too; while the module-path finding about generated C is open, the generated C is left out of the comparison for them (counted), the .nvm and diagnostics are compared.",
         design="3/C19"),
     "C20": dict(
         category="exploration",
         technique="Hypothesis-generated programs compiled natively with clang ASan+UBSan for runtime and generated code (oracle: no sanitizer report, normal or documented ending) + rapidcheck operation histories over dyn_array (all element kinds) and the reference-counting GC against reference models, in-process under ASan/UBSan",
         text="(a) the NANO_CC shim switches nanoc's C compiler to clang -fsanitize=address,undefined for both src/runtime/*.c and the generated translation unit; progen programs with string building in loops, arrays of strings through calls, structs/unions/tuples holding heap values, early exits from nested scopes and recursion must run sanitizer-clean. (b) histories of new/push/pop/get/set/remove_at/clear/reserve/clone on dyn_array are compared with a std::vector after every command (length, capacity >= length, element type, all elements, clone independence); gc_alloc/gc_alloc_opaque/retain/release/collect histories are compared with a reference-count model (ref_count, live-object statistics, finalizer calls, contents).",
-        note="Leaks are outside the statement. HashMap/List<T> ownership paths and gc_struct are not generated; dyn_array_insert_* are declared but undefined in the runtime.",
+        note="Leaks are outside the statement. A third of the cases are to_string formatting programs (arrays of int/string/float/bool, struct, union; element counts and field lengths around the 256/512/1024-byte growth steps of the generated string builder). HashMap/List<T> ownership paths and gc_struct are not generated; dyn_array_insert_* are declared but undefined in the runtime.",
         design="3/C20"),
     "C14": dict(
         category="exploration",
